@@ -109,7 +109,11 @@ impl Search {
     /// ```
     pub fn search(&mut self, evaluator: &impl Evaluator, max_depth: Option<Depth>) {
         // Uses a heuristic to determine the maximum time to spend on a move
+        #[cfg(rce_verif)]
+        crate::verif::sched("S.entry");
         self.start();
+        #[cfg(rce_verif)]
+        crate::verif::sched("S.started");
 
         self.limits.time_management_timer = match self.board.current_turn {
             Color::White => {
@@ -147,6 +151,8 @@ impl Search {
         let start = Instant::now();
         for depth in 1..=max_depth.unwrap_or(Depth::MAX) {
             self.alpha_beta_start(evaluator, depth, start);
+            #[cfg(rce_verif)]
+            crate::verif::sched(format!("S.iter{depth}").as_str());
 
             if !self.is_running() || self.limits_exceeded(start) {
                 break;
@@ -156,7 +162,11 @@ impl Search {
             self.log_uci_info(depth, Some(start.elapsed().as_millis()), &pv);
         }
 
+        #[cfg(rce_verif)]
+        crate::verif::sched("S.pre_best");
         self.log(format!("bestmove {}", self.info.best_move.unwrap()).as_str());
+        #[cfg(rce_verif)]
+        crate::verif::sched("S.post_best");
     }
 
     /// Initializes the alpha-beta search and returns the best move found
@@ -274,6 +284,8 @@ impl Search {
                         best_ply,
                     },
                 );
+            #[cfg(rce_verif)]
+            self.verif_tt_write("root", alpha, depth, "E", best_ply);
 
             self.info.best_score = Some(alpha);
             self.info.best_move = Some(best_ply);
@@ -311,6 +323,8 @@ impl Search {
         start: Instant,
     ) -> Score {
         if !self.is_running() || self.limits_exceeded(start) {
+            #[cfg(rce_verif)]
+            crate::verif::abort("ab", self.info.nodes, self.info.depth);
             return 0;
         }
 
@@ -325,6 +339,8 @@ impl Search {
             return 0; // Avoid threefold repetition at first repeitition
         }
 
+        #[cfg(rce_verif)]
+        crate::verif::before_probe();
         // Check if we have more information in the TTable than we have already reached in this search
         if let Some(entry) = TRANSPOSITION_TABLE
             .read()
@@ -424,6 +440,8 @@ impl Search {
                             best_ply: mv,
                         },
                     );
+                #[cfg(rce_verif)]
+                self.verif_tt_write("cut", score, depth, "L", mv);
 
                 self.store_killers(mv);
 
@@ -461,6 +479,14 @@ impl Search {
                     best_ply,
                 },
             );
+        #[cfg(rce_verif)]
+        self.verif_tt_write(
+            "end",
+            alpha,
+            depth,
+            if alpha <= alpha_start { "U" } else { "E" },
+            best_ply,
+        );
 
         alpha
     }
@@ -473,6 +499,8 @@ impl Search {
         start: Instant,
     ) -> Score {
         if !self.is_running() || self.limits_exceeded(start) {
+            #[cfg(rce_verif)]
+            crate::verif::abort("qs", self.info.nodes, self.info.depth);
             return 0;
         }
 
@@ -704,6 +732,29 @@ impl Search {
         );
 
         plys
+    }
+
+    /// Verification hook: reports a transposition-table insert to the recorder.
+    #[cfg(rce_verif)]
+    fn verif_tt_write(&self, site: &str, score: Score, depth: Depth, bound: &str, best: Ply) {
+        crate::verif::tt_write(
+            site,
+            self.board.zkey.to_string(),
+            score,
+            depth,
+            bound,
+            best.to_notation(),
+            self.info.nodes,
+            self.limits.nodes,
+            self.is_running(),
+            self.info.depth,
+        );
+    }
+
+    /// Verification accessor: (best move, best score, nodes) of the last search.
+    #[cfg(rce_verif)]
+    pub const fn verif_result(&self) -> (Option<Ply>, Option<Score>, NodeCount) {
+        (self.info.best_move, self.info.best_score, self.info.nodes)
     }
 
     /// Returns the number of nodes searched.
